@@ -38,13 +38,14 @@ def batched(f, A, outnd):
 
 
 class Interp:
-    def __init__(self, sp, intercept=None, literal_hook=None, series=None, scan_hook=None):
+    def __init__(self, sp, intercept=None, literal_hook=None, series=None, scan_hook=None, prim_hook=None):
         self.sp = sp
         self.count = {}
         self.intercept = dict(intercept or {})
         self.literal_hook = literal_hook      # concrete literal/const array -> symbolic array or None
         self.series = series                  # optional power-series helper (C04/C05)
         self.calls = []                       # names of jit callees seen (for the evidence)
+        self.prim_hook = dict(prim_hook or {})   # primitive name -> callable(interp, eqn, ins) -> outputs or None
         self.scan_hook = scan_hook            # optional: callable(interp, eqn, ins) -> outputs or None (loop contracts)
 
     # ------------------------------------------------------------------ driver
@@ -89,6 +90,10 @@ class Interp:
         self.count[p] = self.count.get(p, 0) + 1
         P = e.params
         anysym = any(is_obj(x) or isinstance(x, Fr) for x in ins)
+        if p in self.prim_hook:
+            r = self.prim_hook[p](self, e, ins)
+            if r is not None:
+                return r
         if p not in ("jit", "pjit", "scan", "cond", "custom_jvp_call", "custom_vjp_call", "custom_linear_solve", "while",
                      "closed_call", "core_call", "remat", "checkpoint", "custom_vjp_call_jaxpr") and ins and not anysym:
             out = e.primitive.bind(*[jnp.asarray(x, dtype=v.aval.dtype) for x, v in zip(ins, e.invars)], **P)
@@ -446,7 +451,7 @@ def trace(fn, *example_args, **kw):
     return closed, out_shape
 
 
-def evaluate(sp, fn, sym_args, example_args, intercept=None, literal_hook=None, series=None, scan_hook=None):
+def evaluate(sp, fn, sym_args, example_args, intercept=None, literal_hook=None, series=None, scan_hook=None, prim_hook=None):
     """Trace fn at example_args (pytrees of concrete arrays giving shapes/dtypes) and interpret the jaxpr with the
     leaves replaced by sym_args (same pytree structure; leaves: object arrays or concrete arrays).
     Returns (pytree of results, interpreter)."""
@@ -459,7 +464,7 @@ def evaluate(sp, fn, sym_args, example_args, intercept=None, literal_hook=None, 
     for s, x in zip(flat_sym, flat_ex):
         if tuple(np.shape(s)) != tuple(np.shape(x)):
             raise Unsupported(f"shape mismatch between symbolic {np.shape(s)} and example {np.shape(x)} argument")
-    it = Interp(sp, intercept=intercept, literal_hook=literal_hook, series=series, scan_hook=scan_hook)
+    it = Interp(sp, intercept=intercept, literal_hook=literal_hook, series=series, scan_hook=scan_hook, prim_hook=prim_hook)
     outs = it.run(closed.jaxpr, closed.consts, flat_sym)
     out_tree = jax.tree_util.tree_structure(out_shape)
     return jax.tree_util.tree_unflatten(out_tree, outs), it
